@@ -103,6 +103,23 @@ def attempt(args):
         except Exception:  # noqa: BLE001
             pass
         _LIMITED = True
+    # a third of the faulted streams are loaded under a cached (read-only) current culture in which another kind of value was formatted
+    # first: the messages of the documented error are built with the current culture's formatting (decided by the task's seed)
+    try:
+        from pyoda_time import Offset as _Off
+        from pyoda_time._compatibility._culture_info import CultureInfo as _CI
+
+        global _DEFAULT_CULTURE
+        if _DEFAULT_CULTURE is None:
+            _DEFAULT_CULTURE = _CI.current_culture
+        if seed % 3 == 0:
+            getter = getattr(_CI, "get_culture_info", None)
+            _CI.current_culture = getter("en-GB") if callable(getter) else _CI.read_only(_CI("en-GB"))
+            str(_Off.from_hours_and_minutes(5, 30))
+        else:
+            _CI.current_culture = _DEFAULT_CULTURE
+    except Exception:  # noqa: BLE001
+        pass
     from pyoda_time.time_zones import DateTimeZoneCache
     from pyoda_time.time_zones._tzdb_date_time_zone_source import TzdbDateTimeZoneSource
 
@@ -165,6 +182,7 @@ def attempt(args):
 _RAW: dict = {}
 _LIMITED = False
 _NSTRUCT: dict = {}
+_DEFAULT_CULTURE = None
 
 
 def plan(path: str, rnd: random.Random, q: bool) -> list:
@@ -299,6 +317,16 @@ def plan(path: str, rnd: random.Random, q: bool) -> list:
         for v in vals + [1]:
             if v != raw[p]:
                 add("subst", p, [v], None)
+    # the list-shaped fields (alias map, windows mapping, zone locations, zone-1970 locations): their counts are single bytes among
+    # pool indices - a count of zero or one where the reader assumes more is its own kind of damage; zeros and ones all over them
+    for fid, hs, ds, end, zid in fields:
+        if fid in (3, 4, 5, 6, 7) and end > ds:
+            span = range(ds, end)
+            spots = span if len(span) <= (150 if q else 6000) else rnd.sample(span, 150 if q else 6000)
+            for p2 in spots:
+                for v in (0, 1):
+                    if raw[p2] != v and (not q or rnd.random() < 0.6):
+                        structured.append((path, "subst", p2, [v], [], rnd.randrange(10**9)))
     _NSTRUCT[path] = len(structured)
     return tasks + structured
 
